@@ -1,4 +1,5 @@
-import LyModel.Val.LemmasMisc
+import LyModel.Val.LemmasGeneric
+import LyModel.Val.LemmasUtf8
 /-!
 # C03 — typed values: acceptance, canonical form, equality and ordering follow RFC 7950
 
@@ -274,25 +275,66 @@ theorem dec64_lyb_roundtrip (nd : Bool) (fd : Nat) (range : List (Int × Int)) (
   obtain ⟨hlo, hhi, hr⟩ := storeDec64_ok_bounds h
   exact ⟨unlybDec64_lybDec64 range v hlo hhi hr, leBytes_length _ _⟩
 
-/-! ## ordering -/
+/-! ## all modelled types at once (integers, decimal64, boolean, enumeration, bits, string)
 
-/-- The `sort` callbacks of the numeric types, boolean and string are total orders consistent with equality:
-    antisymmetric, transitive, and 0 exactly on equal values. -/
-theorem sort_total_order :
-    (∀ a b : Int, cmpInt a b = -cmpInt b a) ∧ (∀ a b c : Int, cmpInt a b ≤ 0 → cmpInt b c ≤ 0 → cmpInt a c ≤ 0) ∧
-    (∀ a b : Bytes, strcmp a b = -strcmp b a) ∧ (∀ a b c : Bytes, strcmp a b ≤ 0 → strcmp b c ≤ 0 → strcmp a c ≤ 0) ∧
-    (∀ a b : Bytes, memcmp a b = -memcmp b a) ∧
-    (∀ a b c : Bytes, a.length = b.length → b.length = c.length → memcmp a b ≤ 0 → memcmp b c ≤ 0 → memcmp a c ≤ 0) :=
-  ⟨cmpInt_antisymm, cmpInt_trans, strcmp_antisymm, strcmp_trans, memcmp_antisymm, memcmp_trans⟩
+`Ty.WF` = the type is a compiled one (ranges ascending and disjoint inside the bounds, fraction-digits ≥ 1, enum names and
+values distinct and int32, bit positions ascending with distinct whitespace-free names); `Stored ty v` = some lexical
+string is stored as `v` under some hints. -/
 
-theorem sort_consistent_with_eq :
-    (∀ a b : Int, cmpInt a b = 0 ↔ a = b) ∧ (∀ a b : Bytes, strcmp a b = 0 ↔ a = b) ∧
-    (∀ a b : Bytes, a.length = b.length → (memcmp a b = 0 ↔ a = b)) ∧
-    (∀ a b : Bool, sortBool a b = 0 ↔ a = b) := by
-  refine ⟨cmpInt_zero, strcmp_zero, memcmp_zero, ?_⟩
-  intro a b; cases a <;> cases b <;> decide
+/-- Canonical idempotence: storing the canonical string of any stored value returns that value. -/
+theorem canon_idempotent (ty : Ty) (hwf : ty.WF) (v : Value) (h : Stored ty v) :
+    store ty Generated.LYD_HINT_DATA (canon ty v) = .ok v :=
+  store_canon hwf h
 
-example : cmpInt (-3) 7 = -1 ∧ strcmp [97] [97, 0] = -1 ∧ memcmp [1, 2] [1, 3] = -1 := by decide
+/-- Two stored values compare equal (the plug-in `compare` callback) exactly when their canonical strings are equal. -/
+theorem eq_iff_canon_eq (ty : Ty) (hwf : ty.WF) (a b : Value) (ha : Stored ty a) (hb : Stored ty b) :
+    cmpEq ty a b = true ↔ canon ty a = canon ty b :=
+  cmpEq_iff_canon_eq hwf ha hb
+
+/-- The `sort` callback is a total preorder on stored values: antisymmetric and transitive … -/
+theorem sort_total_order (ty : Ty) (hwf : ty.WF) (a b c : Value) (ha : Stored ty a) (hb : Stored ty b) (hc : Stored ty c) :
+    sort ty a b = -sort ty b a ∧ (sort ty a b ≤ 0 → sort ty b c ≤ 0 → sort ty a c ≤ 0) :=
+  ⟨(sort_props hwf ha hb hc).2.1, (sort_props hwf ha hb hc).2.2⟩
+
+/-- … and consistent with equality: it returns 0 exactly for equal values, i.e. for equal canonical strings.  (For the
+    derived type date-and-time this is false in the C code — finding F28 — but that plug-in is outside the model.) -/
+theorem sort_consistent_with_eq (ty : Ty) (hwf : ty.WF) (a b : Value) (ha : Stored ty a) (hb : Stored ty b) :
+    (sort ty a b = 0 ↔ cmpEq ty a b = true) ∧ (sort ty a b = 0 ↔ canon ty a = canon ty b) := by
+  have h1 := (sort_props hwf ha hb hb).1
+  exact ⟨h1, h1.trans (cmpEq_iff_canon_eq hwf ha hb)⟩
+
+/-- A value printed in LYB and stored back from LYB is the same value. -/
+theorem lyb_value_roundtrip (ty : Ty) (hwf : ty.WF) (v : Value) (h : Stored ty v) : unlyb ty (lyb ty v) = .ok v :=
+  unlyb_lyb hwf h
+
+-- non-vacuity: a bits type with a gap, a multi-part int8 range, a decimal64
+example : (Ty.bits [⟨[97], 0⟩, ⟨[98], 3⟩, ⟨[99], 9⟩]).WF ∧ Stored (.bits [⟨[97], 0⟩, ⟨[98], 3⟩, ⟨[99], 9⟩]) (.bits 513) :=
+  ⟨⟨by decide, by decide, by decide⟩, Generated.LYD_HINT_DATA, [99, 32, 32, 97], by decide⟩
+example : (Ty.int .int8 [(-128, -100), (5, 20)]).WF ∧ Stored (.int .int8 [(-128, -100), (5, 20)]) (.num 12) :=
+  ⟨by simp only [Ty.WF, PartsWF]; decide, Generated.LYD_HINT_DATA, [43, 49, 50], by decide⟩
+example : (Ty.dec64 2 []).WF ∧ Stored (.dec64 2 []) (.num (-50)) ∧ canon (.dec64 2 []) (.num (-50)) = [45, 48, 46, 53] :=
+  ⟨⟨by decide, trivial⟩, ⟨Generated.LYD_HINT_DATA, [45, 48, 46, 53, 48], by decide⟩, by decide⟩
+example : sort (.bits [⟨[97], 0⟩, ⟨[98], 3⟩, ⟨[99], 9⟩]) (.bits 513) (.bits 8) = -1 ∧ lyb (.bits [⟨[97], 0⟩, ⟨[98], 3⟩, ⟨[99], 9⟩]) (.bits 513) = [1, 2] := by
+  decide
+
+/-! ## bits -/
+
+/-- The canonical string of a bits value lists exactly the set bits in position (= declaration) order, whatever the
+    order and spacing in the input; inputs naming the same set of bits are stored as the same bitmap. -/
+theorem bits_canonical_order (items : List BitItem) (hwf : BitsWF items) (hints : Nat) (s : Bytes) (m : Nat)
+    (h : storeBits items hints s = .ok m) :
+    canonBits items m = joinSp ((items.filter (fun it => m.testBit it.pos)).map (·.name)) ∧
+    (∀ hints' s' m', storeBits items hints' s' = .ok m' → (∀ tok, tok ∈ tokens s ↔ tok ∈ tokens s') → m' = m) := by
+  refine ⟨?_, ?_⟩
+  · unfold canonBits; rw [bitmap2items_eq_filter hwf]
+  · intro hints' s' m' h' hsame
+    exact (storeBits_order_independent h h' hsame).symm
+
+example : storeBits [⟨[97], 0⟩, ⟨[98], 3⟩, ⟨[99], 9⟩] Generated.LYD_HINT_DATA [99, 32, 32, 97] = .ok 513 ∧
+    canonBits [⟨[97], 0⟩, ⟨[98], 3⟩, ⟨[99], 9⟩] 513 = [97, 32, 99] ∧
+    storeBits [⟨[97], 0⟩, ⟨[98], 3⟩, ⟨[99], 9⟩] Generated.LYD_HINT_DATA [97, 32, 97] = .error .DupBit := by decide
+
+/-! ## ordering, per callback -/
 
 /-- The enumeration sort callback is a total order consistent with equality of values, but it is the *descending* one
     (`lyplg_type_sort_enum` returns −1 for the greater value): a system-ordered leaf-list lists enums by falling value. -/
@@ -334,5 +376,32 @@ theorem enum_accept_iff (items : List EnumItem) (hints : Nat) (s : Bytes) (it : 
 
 example : storeEnum [⟨[120], 0⟩, ⟨[121], 5⟩, ⟨[122], -3⟩] Generated.LYD_HINT_DATA [122] = .ok ⟨[122], -3⟩ ∧
     lybEnum ⟨[122], -3⟩ = [0xfd, 0xff, 0xff, 0xff] := by decide
+
+/-! ## strings: the value API and the lexers validate characters with different functions -/
+
+/-- FULL STATEMENT (false, findings F22 and F11): `ly_checkutf8` (string store: `lyd_new_term`, `lyd_value_validate`,
+    path predicates, LYB) and `ly_getutf8` (XML, JSON and YANG lexers) accept the same first character, with the same
+    length, of every C string — which is what "the same verdict from every source" needs for the type `string`. -/
+def Utf8ValidatorsAgree : Prop :=
+  ∀ (inp : Bytes) (inLen : Nat), (∀ i, inLen ≤ i → Utf8.rd inp i = 0) → 0 < inLen →
+    Utf8.checkUtf8 inp inLen = (Utf8.getUtf8 inp).map (fun x => x.snd)
+
+/-- F22: `EF BF BE` (U+FFFE) passes `ly_checkutf8` and is refused by `ly_getutf8`. -/
+theorem utf8_validators_agree_fails : ¬ Utf8ValidatorsAgree := by
+  intro h
+  have := h [0xEF, 0xBF, 0xBE] 3 (by intro i hi; match i, hi with | i + 3, _ => rfl) (by decide)
+  revert this; decide
+
+/-- The common part: on every sequence whose lead byte is below `0xF0` — ASCII, 2- and 3-byte forms, stray continuation
+    bytes, truncated sequences — the validators agree on verdict and length, except for `EF BF BE` / `EF BF BF`.
+    (4-byte forms are the territory of F11, component `text`.) -/
+theorem utf8_validators_agree_partial (inp : Bytes) (inLen : Nat) (hz : ∀ i, inLen ≤ i → Utf8.rd inp i = 0) (hne : 0 < inLen)
+    (hlead : (Utf8.rd inp 0).toNat < 240)
+    (hnc : ¬ ((Utf8.rd inp 0).toNat = 0xEF ∧ (Utf8.rd inp 1).toNat = 0xBF ∧ 0xBE ≤ (Utf8.rd inp 2).toNat)) :
+    Utf8.checkUtf8 inp inLen = (Utf8.getUtf8 inp).map (fun x => x.snd) :=
+  validators_agree_upto3 inp inLen hz hne hlead hnc
+
+example : storeStr [] Generated.LYD_HINT_DATA [0xEF, 0xBF, 0xBE] = .ok [0xEF, 0xBF, 0xBE] ∧ Utf8.isYangText [0xEF, 0xBF, 0xBE] = false ∧
+    Utf8.checkUtf8 [0xE2, 0x82, 0xAC] 3 = some 3 ∧ Utf8.getUtf8 [0xE2, 0x82, 0xAC] = some (0x20AC, 3) := by decide
 
 end LyModel.Props.C03
